@@ -84,8 +84,9 @@ class BoundedStream(io.IOBase):
         if size is None or size == -1 or size > self._bytes_remaining:
             size = self._bytes_remaining
 
-        self._bytes_remaining -= size
-        return target(size)
+        result = target(size)
+        self._bytes_remaining -= len(result)
+        return result
 
     def readable(self) -> bool:
         """Return ``True`` always."""
